@@ -686,3 +686,52 @@ def c19_run(driver, w, snap, ev, dev, ctx):
             'msg': '%s is not handled like %s: status %s vs %s, differing '
                    '%s' % (dev, ev, o.get('status'), ctx['status'], diff)})
     return out
+
+
+# ---------------------------------------------------------------------------
+# C06: a developer pushes to the source branch right after Bert-E's clone
+# ---------------------------------------------------------------------------
+def c06_plan(driver, w, snap, ev, res):
+    out = {'devs': [], 'ctx': {}, 'stats': {}}
+    if ev[0] != 'eval_pr' or res['obs'].get('status') not in (
+            'Queued', 'SuccessMessage'):
+        return out
+    pr = [p for p in res['pre']['prs'] if p['id'] == ev[1]]
+    if not pr or pr[0]['author'] == ROBOT:
+        return out
+    cmds = res['obs'].get('cmds', [])
+    at = [c['i'] for c in cmds if 'git remote update origin' in c['cmd']]
+    if not at:
+        return out
+    out['devs'] = [['source_push_after_clone', at[-1] + 1, pr[0]['src']]]
+    out['ctx'] = {'pre_pending': res['pre']['pending']}
+    return out
+
+
+def c06_run(driver, w, snap, ev, dev, ctx):
+    out = {'violations': [], 'stats': {'c06_source_push_runs': 1}}
+    w.restore(snap)
+    w.set_pending(ctx['pre_pending'])
+    pre = w.state()
+    done = {}
+
+    def hook(idx, command, kwargs, rec):
+        if idx == dev[1] and not done:
+            done['x'] = 1
+            E.apply(w, ['push', dev[2]])
+        return None
+    w.cmd_hook = hook
+    try:
+        o = E.apply(w, ev)
+    finally:
+        w.cmd_hook = None
+    post = w.state()
+    out['stats']['c06_source_push_' + str(o.get('status'))] = 1
+    mon = M.c06(driver)
+    v, st = mon(w, pre, ev, o, post)
+    for x in v:
+        x['msg'] = 'a commit was pushed to %s right after Bert-E cloned the ' \
+            'repository: %s' % (dev[2], x['msg'])
+        x['fingerprint'] = 'source-push-after-clone'
+    out['violations'] = v
+    return out
